@@ -133,6 +133,37 @@ def run(ctx):
         ocases.append("cmp %s | %s" % (t_loc, other))
         ocases.append("cmp t 2 %s i 1 | t 2 %s i 1" % (t_loc, other))
 
+    # identifiers received on a connection that uses distribution headers: decoded with the connection's atom cache
+    # (empty, filled by an earlier message, filled by this very message) they keep their node-local form
+    ccases, BLOBS = [], {}
+    for _ in range(ctx.budget(300, 6000)):
+        ids = [gen_ident(rng) for _ in range(rng.choice([1, 2]))]
+        body = context(rng, [x[0] for x in ids])
+        first = rng.choice([None, bytes([131, 68, 1, 8, 5, 2, 111, 107, 82, 0]), bytes([131, 68, 2, 0x98, 1, 0, 3, 110, 64, 104, 7, 1, 120, 104, 2, 82, 0, 82, 1])])
+        form = rng.choice(["bare", "hdr0", "hdr1"])
+        if form == "bare":
+            msg = bytes([131]) + body
+        elif form == "hdr0":
+            msg = bytes([131, 68, 0]) + body
+        else:   # a header that creates an entry, the term refers to it next to the identifiers
+            msg = bytes([131, 68, 1, 8, 9, 1, 122, 104, 2, 82, 0]) + body
+        msgs = ([first] if first else []) + [msg]
+        case = "hdrdec " + ",".join(m.hex() for m in msgs)
+        BLOBS[case] = [x[1] for x in ids if x[1]]
+        ccases.append(case)
+
+    def cache_oracle(case, impl):
+        if impl.startswith(("PANIC", "CRASH", "TIMEOUT")):
+            return ("violation", "did not return: " + impl[:60])
+        last = impl.split(" ;; ")[-1]
+        if not last.startswith("ok "):
+            return ("violation", "a valid message with node-local identifiers is rejected when decoded with the connection's atom cache: " + last[:60])
+        for b in BLOBS[case]:
+            if b[1:].hex() not in last:
+                return ("violation", "an identifier received in node-local form lost its opaque bytes when decoded with the connection's atom cache")
+        return None
+    ctx.diff_domain("codec", ccases, oracle=cache_oracle, nontrivial=lambda c, i: c if BLOBS[c] else None, classify=lambda c, i: ["op:hdrdec-local", "msgs:%d" % (c.count(",") + 1)])
+
     def nontrivial(c, impl):
         return c if ("79" in c or c.split()[1] != "-") else None
     ctx.diff_domain("codec", cases, oracle=oracle, nontrivial=nontrivial, classify=lambda c, i: ["op:conv", "ops:%d" % len(c.split()[1])])
